@@ -10,10 +10,17 @@ import (
 // C19: credential decisions follow the documented rule.
 //
 // The credentials file is an *abstract file*: a list of entries, each of the three fields
-// (username, password, perms) absent, null or present; every string in it (user names,
-// passwords, permission names) and the query (username, password, perm) is a solver-level string.
-// The code under test is the real Load / AA / Check / HasPerm / HasAnyPerm / Password /
-// CheckRequest / HasPermRequest.
+// (username, password, perms) absent, null, empty or given; every string in it (user names,
+// passwords, permission names) and the query (username, password, perm) is made of symbolic bytes.
+//
+//   VerifC19Load       file  -> Load -> the store holds exactly "last definition of every user,
+//                      absent field = empty" (the second sentence of the property)
+//   VerifC19Decide     ANY store state of that form -> AA == the first sentence of the property
+//   VerifC19Parts      the same states -> Check/Password/HasPerm/HasAnyPerm/CheckRequest/HasPermRequest
+//   VerifC19EndToEnd   file -> Load -> AA == the whole statement evaluated on the file as written
+//                      (one equivalence obligation, smaller bounds)
+//
+// Load + Decide compose: every file of the Load universe yields a state of the Decide universe.
 //
 // encoding/json is reflection based, so in the engine the three Decoder methods used by Load are
 // replaced by the models at the bottom of this file (spec.json "models"); they serve the abstract
@@ -21,13 +28,12 @@ import (
 // render the abstract file as JSON text and run the REAL decoder on it, so every counterexample
 // and finding witness is confirmed against encoding/json itself.
 
-const verifStrMax = 3 // "all" must be expressible
-
 // field states
 const (
-	verifAbsent  = 0
-	verifPresent = 1
-	verifNull    = 2 // JSON null
+	verifAbsent = 0 // key not in the object
+	verifValue  = 1 // strings: one symbolic character; perms: a list
+	verifEmpty  = 2 // strings only: present and ""
+	verifNull   = 3 // JSON null
 )
 
 type verifEntry struct {
@@ -40,18 +46,26 @@ type verifFile struct {
 	entries []verifEntry
 }
 
-// verifStr is one string of the universe: any string of at most verifStrMax characters.
-// Natively the solver's characters 0..255 are read as the code points U+0000..U+00FF (an injective
-// map that fixes ASCII, hence "*", "all", ""), so the text is valid UTF-8 and survives JSON unchanged.
-func verifStr(name string) string {
-	s := verifString(name, verifStrMax)
+// The universe: a user name or password is "" or any one character (so AllUsers "*" is one of
+// them); a permission is any three characters (so PermAll "all" is one of them).
+const (
+	verifNameLen = 1
+	verifPermLen = 3
+)
+
+// verifStr is a string of exactly n arbitrary symbolic bytes (every comparison on it is decided by
+// the solver over bit-vectors). Natively the bytes 0..255 are read as the code points
+// U+0000..U+00FF (an injective map that fixes ASCII, hence "*" and "all"), so that the text is
+// valid UTF-8 and goes through JSON unchanged.
+func verifStr(name string, n int) string {
+	b := verifBytes(name, n)
 	if !verifSymbolic() {
-		s = verifLatin1(s)
+		return verifLatin1(b)
 	}
-	return s
+	return string(b)
 }
 
-func verifLatin1(s string) string {
+func verifLatin1(s []byte) string {
 	var b strings.Builder
 	for i := 0; i < len(s); i++ {
 		b.WriteRune(rune(s[i]))
@@ -59,30 +73,43 @@ func verifLatin1(s string) string {
 	return b.String()
 }
 
-// verifBuildFile chooses a file of at most maxN entries; shapes are enumerated, strings symbolic.
-func verifBuildFile(maxN, maxPerms int, withNull bool) *verifFile {
-	states := 2
-	if withNull {
-		states = 3
-	}
+type verifBounds struct {
+	maxEntries, maxPerms int
+	withNull             bool // JSON null as a field state
+	fullFirst            bool // also give the first entry the states that equal "absent" there
+}
+
+// verifBuildFile chooses a file; shapes are enumerated, strings symbolic.
+func verifBuildFile(b verifBounds) *verifFile {
 	f := &verifFile{}
-	n := verifChoice("entries", maxN+1)
+	n := verifChoice("entries", b.maxEntries+1)
 	for i := 0; i < n; i++ {
+		strStates, permStates, minPerms := 3, 2, 0
+		if b.withNull {
+			strStates, permStates = 4, 3
+		}
+		if i == 0 && !b.fullFirst {
+			// nothing precedes the first entry: "", null and [] all mean "absent" there
+			strStates, permStates, minPerms = 2, 2, 1
+		}
 		var e verifEntry
-		e.uState = verifChoice(verifName("usernameState", i), states)
-		if e.uState == verifPresent {
-			e.user = verifStr(verifName("username", i))
+		e.uState = verifChoice(verifName("usernameState", i), strStates)
+		if e.uState == verifValue {
+			e.user = verifStr(verifName("username", i), verifNameLen)
 		}
-		e.pState = verifChoice(verifName("passwordState", i), states)
-		if e.pState == verifPresent {
-			e.pass = verifStr(verifName("password", i))
+		e.pState = verifChoice(verifName("passwordState", i), strStates)
+		if e.pState == verifValue {
+			e.pass = verifStr(verifName("password", i), verifNameLen)
 		}
-		e.permsState = verifChoice(verifName("permsState", i), states)
-		if e.permsState == verifPresent {
-			k := verifChoice(verifName("permsLen", i), maxPerms+1)
+		e.permsState = verifChoice(verifName("permsState", i), permStates)
+		if e.permsState == 2 {
+			e.permsState = verifNull
+		}
+		if e.permsState == verifValue {
+			k := minPerms + verifChoice(verifName("permsLen", i), b.maxPerms+1-minPerms)
 			e.perms = []string{}
 			for j := 0; j < k; j++ {
-				e.perms = append(e.perms, verifStr(verifName(verifName("perm", i)+"_", j)))
+				e.perms = append(e.perms, verifStr(verifName(verifName("perm", i)+"_", j), verifPermLen))
 			}
 		}
 		f.entries = append(f.entries, e)
@@ -90,32 +117,28 @@ func verifBuildFile(maxN, maxPerms int, withNull bool) *verifFile {
 	return f
 }
 
+// verifQuery chooses the (username, password, perm) presented.
+func verifQuery() (u, pw, perm string) {
+	if verifChoice("queryUserGiven", 2) == 1 {
+		u = verifStr("queryUser", verifNameLen)
+	}
+	if verifChoice("queryPasswordGiven", 2) == 1 {
+		pw = verifStr("queryPassword", verifNameLen)
+	}
+	perm = verifStr("queryPerm", verifPermLen)
+	return
+}
+
 // ---------------------------------------------------------------------------
-// the file "as written": an absent (or null) field is empty
+// definitions: what the credentials say about one user
 
-func (e *verifEntry) writtenUser() string {
-	if e.uState == verifPresent {
-		return e.user
-	}
-	return ""
+type verifDef struct {
+	pass  string
+	perms []string
 }
 
-func (e *verifEntry) writtenPass() string {
-	if e.pState == verifPresent {
-		return e.pass
-	}
-	return ""
-}
-
-func (e *verifEntry) writtenPerms() []string {
-	if e.permsState == verifPresent {
-		return e.perms
-	}
-	return nil
-}
-
-func (e *verifEntry) grants(perm string) bool {
-	for _, p := range e.writtenPerms() {
+func (d *verifDef) grants(perm string) bool {
+	for _, p := range d.perms {
 		if p == perm {
 			return true
 		}
@@ -123,12 +146,36 @@ func (e *verifEntry) grants(perm string) bool {
 	return false
 }
 
-// verifDefinition: when a user is defined more than once, the last definition wins.
-func (f *verifFile) verifDefinition(user string) *verifEntry {
-	var d *verifEntry
+// verifDefs is either a file as written or a table of users.
+type verifDefs interface {
+	def(user string) *verifDef
+}
+
+// the file "as written": an absent (or null) field is empty ...
+func (e *verifEntry) writtenUser() string {
+	if e.uState == verifValue {
+		return e.user
+	}
+	return ""
+}
+
+func (e *verifEntry) written() *verifDef {
+	d := &verifDef{}
+	if e.pState == verifValue {
+		d.pass = e.pass
+	}
+	if e.permsState == verifValue {
+		d.perms = e.perms
+	}
+	return d
+}
+
+// ... and when a user is defined more than once, the last definition wins.
+func (f *verifFile) def(user string) *verifDef {
+	var d *verifDef
 	for i := range f.entries {
 		if f.entries[i].writtenUser() == user {
-			d = &f.entries[i]
+			d = f.entries[i].written()
 		}
 	}
 	return d
@@ -145,30 +192,30 @@ func (f *verifFile) definitions(user string) int {
 }
 
 // ---------------------------------------------------------------------------
-// the documented rules, evaluated on the file as written
+// the documented rules
 
-// specHolds: user holds perm "directly or through the all-users entry".
-func (f *verifFile) specHolds(user, perm string) bool {
-	if d := f.verifDefinition(user); d != nil && d.grants(perm) {
+// ruleHolds: user holds perm "directly or through the all-users entry".
+func ruleHolds(ds verifDefs, user, perm string) bool {
+	if d := ds.def(user); d != nil && d.grants(perm) {
 		return true
 	}
-	if d := f.verifDefinition(AllUsers); d != nil && d.grants(perm) {
+	if d := ds.def(AllUsers); d != nil && d.grants(perm) {
 		return true
 	}
 	return false
 }
 
-// specCheck: the password is the one stored for that user.
-func (f *verifFile) specCheck(user, pw string) bool {
-	d := f.verifDefinition(user)
-	return d != nil && d.writtenPass() == pw
+// ruleCheck: the password is exactly the one stored for that user.
+func ruleCheck(ds verifDefs, user, pw string) bool {
+	d := ds.def(user)
+	return d != nil && d.pass == pw
 }
 
-// specAA is the property statement:
+// ruleAA is the property statement:
 // authorised <=> perm or "all" is granted to all users, or a non-empty username presented with
 // exactly its stored password holds perm or "all", directly or through the all-users entry.
-func (f *verifFile) specAA(user, pw, perm string) bool {
-	if a := f.verifDefinition(AllUsers); a != nil {
+func ruleAA(ds verifDefs, user, pw, perm string) bool {
+	if a := ds.def(AllUsers); a != nil {
 		if a.grants(perm) {
 			return true
 		}
@@ -179,40 +226,53 @@ func (f *verifFile) specAA(user, pw, perm string) bool {
 	if user == "" {
 		return false
 	}
-	if !f.specCheck(user, pw) {
+	if !ruleCheck(ds, user, pw) {
 		return false
 	}
-	if f.specHolds(user, perm) {
+	if ruleHolds(ds, user, perm) {
 		return true
 	}
-	return f.specHolds(user, PermAll)
+	return ruleHolds(ds, user, PermAll)
 }
 
 // ---------------------------------------------------------------------------
 // the recorded defect class C19-inherit-fields
 
-// verifInheritShape: some entry after the first leaves out a field (or gives a string field as
-// null) that an earlier entry has set.
+// verifInheritShape: some entry leaves out a field (or gives a string field as null) while the
+// most recent earlier entry that mentions the field gave it a non-empty value.
 func (f *verifFile) verifInheritShape() bool {
-	uSet, pSet, permsSet := false, false, false
+	u, p, perms := false, false, false // a non-empty value is being carried
 	for i := range f.entries {
 		e := &f.entries[i]
-		if e.uState != verifPresent && uSet {
-			return true
+		switch e.uState {
+		case verifValue:
+			u = true
+		case verifEmpty:
+			u = false
+		default:
+			if u {
+				return true
+			}
 		}
-		if e.pState != verifPresent && pSet {
-			return true
+		switch e.pState {
+		case verifValue:
+			p = true
+		case verifEmpty:
+			p = false
+		default:
+			if p {
+				return true
+			}
 		}
-		if e.permsState == verifAbsent && permsSet {
-			return true
-		}
-		uSet = uSet || e.uState == verifPresent
-		pSet = pSet || e.pState == verifPresent
-		if e.permsState == verifPresent {
-			permsSet = true
-		}
-		if e.permsState == verifNull {
-			permsSet = false
+		switch e.permsState {
+		case verifValue:
+			perms = len(e.perms) > 0
+		case verifNull:
+			perms = false
+		default:
+			if perms {
+				return true
+			}
 		}
 	}
 	return false
@@ -226,10 +286,10 @@ func (f *verifFile) verifInherited() *verifFile {
 	var prev verifEntry
 	for i := range f.entries {
 		e := f.entries[i]
-		if e.uState != verifPresent {
+		if e.uState == verifAbsent || e.uState == verifNull {
 			e.uState, e.user = prev.uState, prev.user
 		}
-		if e.pState != verifPresent {
+		if e.pState == verifAbsent || e.pState == verifNull {
 			e.pState, e.pass = prev.pState, prev.pass
 		}
 		if e.permsState == verifAbsent {
@@ -241,20 +301,15 @@ func (f *verifFile) verifInherited() *verifFile {
 	return g
 }
 
-// verifDecide: ok says that an answer of the implementation agrees with the rule. A deviation on
-// a file that has the inheriting shape, and that is exactly the answer field inheritance explains,
-// is the recorded finding; every other deviation is a violation of id.
-func verifDecide(id string, f *verifFile, ok bool, explained func(inherited *verifFile) bool) {
+// verifClassify: a deviation on a file that has the inheriting shape, and that is exactly the
+// behaviour field inheritance explains, is the recorded finding (ends the path); every other
+// deviation is left to the assertion that follows the call.
+func verifClassify(f *verifFile, ok bool, explained func(inherited *verifFile) bool) {
 	if !ok && f.verifInheritShape() {
 		if explained(f.verifInherited()) {
 			verifFinding("C19-inherit-fields")
 		}
 	}
-	verifAssert(id, ok)
-}
-
-func verifDecideBool(id string, f *verifFile, got, want bool, rule func(g *verifFile) bool) {
-	verifDecide(id, f, got == want, func(g *verifFile) bool { return rule(g) == got })
 }
 
 // ---------------------------------------------------------------------------
@@ -302,19 +357,19 @@ func (f *verifFile) jsonText() string {
 		}
 		var fields []string
 		switch e.uState {
-		case verifPresent:
+		case verifValue, verifEmpty:
 			fields = append(fields, `"username": `+verifQuote(e.user))
 		case verifNull:
 			fields = append(fields, `"username": null`)
 		}
 		switch e.pState {
-		case verifPresent:
+		case verifValue, verifEmpty:
 			fields = append(fields, `"password": `+verifQuote(e.pass))
 		case verifNull:
 			fields = append(fields, `"password": null`)
 		}
 		switch e.permsState {
-		case verifPresent:
+		case verifValue:
 			var ps []string
 			for _, p := range e.perms {
 				ps = append(ps, verifQuote(p))
@@ -395,16 +450,16 @@ func verifJSONDecode(dec *json.Decoder, v any) error {
 	}
 	e := &st.f.entries[st.pos]
 	st.pos++
-	if e.uState == verifPresent {
+	if e.uState == verifValue || e.uState == verifEmpty {
 		cred.Username = e.user
 	}
-	if e.pState == verifPresent {
+	if e.pState == verifValue || e.pState == verifEmpty {
 		cred.Password = e.pass
 	}
 	switch e.permsState {
 	case verifNull:
 		cred.Perms = nil
-	case verifPresent:
+	case verifValue:
 		if len(e.perms) == 0 {
 			cred.Perms = []string{}
 		} else {
@@ -415,30 +470,172 @@ func verifJSONDecode(dec *json.Decoder, v any) error {
 }
 
 // ---------------------------------------------------------------------------
-// entries
+// VerifC19Load: what Load leaves in the store
 
-func verifBounds() (maxN, maxPerms int, withNull bool) {
-	if verifTier() == 1 {
-		return 3, 2, true
+// verifStoreDiffers compares the store with what ds says about the users named in f: every user
+// named in the file is known with the password and exactly the permissions of its definition,
+// and nobody else is known. It returns "" or the aspect that differs.
+func verifStoreDiffers(c *CredentialsStore, f *verifFile, ds verifDefs) string {
+	users := 0
+	for i := range f.entries {
+		name := f.entries[i].writtenUser()
+		last := true
+		for j := i + 1; j < len(f.entries); j++ {
+			if f.entries[j].writtenUser() == name {
+				last = false
+			}
+		}
+		if !last {
+			continue
+		}
+		users++
+		d := ds.def(name)
+		if d == nil {
+			return "user-set"
+		}
+		pw, ok := c.store[name]
+		if !ok {
+			return "user-set"
+		}
+		if pw != d.pass {
+			return "password"
+		}
+		m, ok := c.perms[name]
+		if !ok {
+			return "user-set"
+		}
+		distinct := 0
+		for j, p := range d.perms {
+			if !m[p] {
+				return "perms"
+			}
+			first := true
+			for k := 0; k < j; k++ {
+				if d.perms[k] == p {
+					first = false
+				}
+			}
+			if first {
+				distinct++
+			}
+		}
+		if len(m) != distinct {
+			return "perms"
+		}
 	}
-	return 2, 2, false
+	if len(c.store) != users || len(c.perms) != users {
+		return "user-set"
+	}
+	return ""
 }
 
-// VerifC19AA: Load then AA, for every file of the universe and every query.
-func VerifC19AA() {
-	verifPanicsAreViolations()
-	maxN, maxPerms, withNull := verifBounds()
-	f := verifBuildFile(maxN, maxPerms, withNull)
-	u, pw, perm := verifStr("queryUser"), verifStr("queryPassword"), verifStr("queryPerm")
+func verifLoadBounds() verifBounds {
+	if verifTier() == 1 {
+		return verifBounds{maxEntries: 3, maxPerms: 2}
+	}
+	return verifBounds{maxEntries: 2, maxPerms: 2}
+}
 
+func verifCheckLoad(b verifBounds) {
+	verifPanicsAreViolations()
+	f := verifBuildFile(b)
 	c, err := verifLoadFile(f)
 	verifAssert("C19-load-accepts-well-formed-file", err == nil)
-	got := c.AA(u, pw, perm)
-	want := f.specAA(u, pw, perm)
-	verifDecideBool("C19-aa-rule", f, got, want, func(g *verifFile) bool { return g.specAA(u, pw, perm) })
+	diff := verifStoreDiffers(c, f, f)
+	verifClassify(f, diff == "", func(g *verifFile) bool { return verifStoreDiffers(c, g, g) == "" })
+	verifAssert("C19-load-same-users-as-file", diff != "user-set")
+	verifAssert("C19-load-password-of-last-definition", diff != "password")
+	verifAssert("C19-load-perms-of-last-definition", diff != "perms")
+	verifAssert("C19-load-store-is-file-as-written", diff == "")
 
-	// vacuity markers (on paths where implementation and rule agree)
-	all := f.verifDefinition(AllUsers)
+	if len(f.entries) >= 2 {
+		n := len(f.entries)
+		if f.definitions(f.entries[n-1].writtenUser()) > 1 {
+			verifReach("user-redefined")
+		}
+		if f.entries[n-1].uState == verifAbsent {
+			verifReach("later-entry-without-username")
+		}
+		if f.entries[n-1].pState == verifAbsent && f.entries[n-1].permsState == verifAbsent {
+			verifReach("later-entry-with-name-only")
+		}
+	}
+}
+
+func VerifC19Load() { verifCheckLoad(verifLoadBounds()) }
+
+// VerifC19LoadNull (thorough): the same with JSON null as a further field state.
+func VerifC19LoadNull() {
+	verifCheckLoad(verifBounds{maxEntries: 2, maxPerms: 2, withNull: true, fullFirst: true})
+}
+
+// ---------------------------------------------------------------------------
+// store states: any table of distinct users
+
+type verifUser struct {
+	name string
+	verifDef
+}
+
+type verifTable struct {
+	users []verifUser
+}
+
+func (t *verifTable) def(user string) *verifDef {
+	for i := range t.users {
+		if t.users[i].name == user {
+			return &t.users[i].verifDef
+		}
+	}
+	return nil
+}
+
+// verifBuildTable chooses a table of at most maxUsers distinct users, each with at most maxPerms
+// distinct permissions, and the store holding exactly it (the form VerifC19Load establishes).
+func verifBuildTable(maxUsers, maxPerms int) (*verifTable, *CredentialsStore) {
+	t := &verifTable{}
+	c := NewCredentialsStore()
+	n := verifChoice("users", maxUsers+1)
+	for i := 0; i < n; i++ {
+		var u verifUser
+		if verifChoice(verifName("userNameGiven", i), 2) == 1 {
+			u.name = verifStr(verifName("userName", i), verifNameLen)
+		}
+		for j := 0; j < i; j++ {
+			verifAssume(u.name != t.users[j].name)
+		}
+		if verifChoice(verifName("userPasswordGiven", i), 2) == 1 {
+			u.pass = verifStr(verifName("userPassword", i), verifNameLen)
+		}
+		k := verifChoice(verifName("userPerms", i), maxPerms+1)
+		for j := 0; j < k; j++ {
+			p := verifStr(verifName(verifName("userPerm", i)+"_", j), verifPermLen)
+			for _, q := range u.perms {
+				verifAssume(p != q)
+			}
+			u.perms = append(u.perms, p)
+		}
+		t.users = append(t.users, u)
+		c.store[u.name] = u.pass
+		m := make(map[string]bool)
+		for _, p := range u.perms {
+			m[p] = true
+		}
+		c.perms[u.name] = m
+	}
+	return t, c
+}
+
+func verifTableBounds() (maxUsers, maxPerms int) {
+	if verifTier() == 1 {
+		return 3, 2
+	}
+	return 2, 2
+}
+
+// verifMarkers: vacuity markers for an AA decision that agrees with the rule.
+func verifMarkers(ds verifDefs, u, pw, perm string, want bool) {
+	all := ds.def(AllUsers)
 	viaAll := all != nil && (all.grants(perm) || all.grants(PermAll))
 	switch {
 	case want && viaAll:
@@ -448,27 +645,29 @@ func VerifC19AA() {
 		}
 	case want:
 		verifReach("granted-to-authenticated-user")
-		if d := f.verifDefinition(u); !d.grants(perm) {
+		if !ds.def(u).grants(perm) {
 			verifReach("granted-through-perm-all")
-		}
-		if f.definitions(u) > 1 {
-			verifReach("granted-by-last-of-several-definitions")
 		}
 	case u == "":
 		verifReach("denied-anonymous")
-	case f.verifDefinition(u) == nil:
+	case ds.def(u) == nil:
 		verifReach("denied-unknown-user")
-	case !f.specCheck(u, pw):
+	case !ruleCheck(ds, u, pw):
 		verifReach("denied-wrong-password")
-		if f.definitions(u) > 1 {
-			verifReach("denied-password-of-earlier-definition-or-other")
-		}
 	default:
 		verifReach("denied-authenticated-without-perm")
-		if f.definitions(u) > 1 {
-			verifReach("denied-perm-only-in-earlier-definition-or-none")
-		}
 	}
+}
+
+// VerifC19Decide: AA against the first sentence of the property, for every store state.
+func VerifC19Decide() {
+	verifPanicsAreViolations()
+	t, c := verifBuildTable(verifTableBounds())
+	u, pw, perm := verifQuery()
+	got := c.AA(u, pw, perm)
+	want := ruleAA(t, u, pw, perm)
+	verifAssert("C19-aa-rule", got == want)
+	verifMarkers(t, u, pw, perm, want)
 }
 
 type verifBasicAuth struct {
@@ -479,65 +678,57 @@ type verifBasicAuth struct {
 func (b verifBasicAuth) BasicAuth() (string, string, bool) { return b.user, b.pw, b.ok }
 
 // VerifC19Parts: the building blocks AA is documented to be made of, each against its own
-// documentation, on a loaded file.
+// documentation, for every store state.
 func VerifC19Parts() {
 	verifPanicsAreViolations()
-	maxN, maxPerms, withNull := verifBounds()
-	f := verifBuildFile(maxN, maxPerms, withNull)
-	u, pw, perm := verifStr("queryUser"), verifStr("queryPassword"), verifStr("queryPerm")
-	c, err := verifLoadFile(f)
-	verifAssert("C19-load-accepts-well-formed-file", err == nil)
+	maxUsers, maxPerms := 2, 1
+	if verifTier() == 1 {
+		maxUsers, maxPerms = 3, 2
+	}
+	t, c := verifBuildTable(maxUsers, maxPerms)
+	u, pw, perm := verifQuery()
 
 	switch verifChoice("op", 7) {
 	case 0: // Check: the password is correct for the given username
-		verifDecideBool("C19-check-rule", f, c.Check(u, pw), f.specCheck(u, pw),
-			func(g *verifFile) bool { return g.specCheck(u, pw) })
+		verifAssert("C19-check-rule", c.Check(u, pw) == ruleCheck(t, u, pw))
 		verifReach("check")
-	case 1: // Password: the stored password of the last definition
+	case 1: // Password: the stored password
 		gotPw, gotOk := c.Password(u)
-		d := f.verifDefinition(u)
-		verifDecideBool("C19-password-known-user", f, gotOk, d != nil,
-			func(g *verifFile) bool { return g.verifDefinition(u) != nil })
+		d := t.def(u)
+		verifAssert("C19-password-known-user", gotOk == (d != nil))
 		if d != nil {
-			verifDecide("C19-password-value", f, gotPw == d.writtenPass(), func(g *verifFile) bool {
-				d2 := g.verifDefinition(u)
-				return d2 != nil && gotPw == d2.writtenPass()
-			})
+			verifAssert("C19-password-value", gotPw == d.pass)
 		} else {
 			verifAssert("C19-password-empty-for-unknown-user", gotPw == "")
 		}
 		verifReach("password")
 	case 2: // HasPerm: directly or via AllUsers, no password checking
-		verifDecideBool("C19-hasperm-rule", f, c.HasPerm(u, perm), f.specHolds(u, perm),
-			func(g *verifFile) bool { return g.specHolds(u, perm) })
+		verifAssert("C19-hasperm-rule", c.HasPerm(u, perm) == ruleHolds(t, u, perm))
 		verifReach("hasperm")
 	case 3: // HasAnyPerm: at least one of the given perms
-		perm2 := verifStr("queryPerm2")
-		want := f.specHolds(u, perm)
+		perm2 := verifStr("queryPerm2", verifPermLen)
+		want := ruleHolds(t, u, perm)
 		if !want {
-			want = f.specHolds(u, perm2)
+			want = ruleHolds(t, u, perm2)
 		}
-		verifDecideBool("C19-hasanyperm-rule", f, c.HasAnyPerm(u, perm, perm2), want,
-			func(g *verifFile) bool { return g.specHolds(u, perm) || g.specHolds(u, perm2) })
+		verifAssert("C19-hasanyperm-rule", c.HasAnyPerm(u, perm, perm2) == want)
 		verifAssert("C19-hasanyperm-of-nothing", !c.HasAnyPerm(u))
 		verifReach("hasanyperm")
 	case 4: // CheckRequest: b contains a valid username and password
 		b := verifBasicAuth{u, pw, verifBool("basicAuthPresent")}
 		want := b.ok
 		if want {
-			want = f.specCheck(u, pw)
+			want = ruleCheck(t, u, pw)
 		}
-		verifDecideBool("C19-checkrequest-rule", f, c.CheckRequest(b), want,
-			func(g *verifFile) bool { return b.ok && g.specCheck(u, pw) })
+		verifAssert("C19-checkrequest-rule", c.CheckRequest(b) == want)
 		verifReach("checkrequest")
 	case 5: // HasPermRequest: no username in the request => false; else HasPerm
 		b := verifBasicAuth{u, pw, verifBool("basicAuthPresent")}
 		want := b.ok
 		if want {
-			want = f.specHolds(u, perm)
+			want = ruleHolds(t, u, perm)
 		}
-		verifDecideBool("C19-haspermrequest-rule", f, c.HasPermRequest(b, perm), want,
-			func(g *verifFile) bool { return b.ok && g.specHolds(u, perm) })
+		verifAssert("C19-haspermrequest-rule", c.HasPermRequest(b, perm) == want)
 		verifReach("haspermrequest")
 	case 6: // no credential store: auth is not enabled, everything is allowed
 		var none *CredentialsStore
@@ -546,12 +737,42 @@ func VerifC19Parts() {
 	}
 }
 
+// ---------------------------------------------------------------------------
+// end to end
+
+func verifEndToEndBounds() verifBounds {
+	if verifTier() == 1 {
+		return verifBounds{maxEntries: 2, maxPerms: 2, fullFirst: true}
+	}
+	return verifBounds{maxEntries: 2, maxPerms: 1}
+}
+
+// VerifC19EndToEnd: Load then AA against the whole statement evaluated on the file as written.
+func VerifC19EndToEnd() {
+	verifPanicsAreViolations()
+	f := verifBuildFile(verifEndToEndBounds())
+	u, pw, perm := verifQuery()
+	c, err := verifLoadFile(f)
+	verifAssert("C19-load-accepts-well-formed-file", err == nil)
+	got := c.AA(u, pw, perm)
+	want := ruleAA(f, u, pw, perm)
+	verifClassify(f, got == want, func(g *verifFile) bool { return ruleAA(g, u, pw, perm) == got })
+	verifAssert("C19-aa-rule-on-file", got == want)
+	verifMarkers(f, u, pw, perm, want)
+	if f.definitions(u) > 1 {
+		if want {
+			verifReach("granted-by-last-of-several-definitions")
+		} else {
+			verifReach("denied-by-last-of-several-definitions")
+		}
+	}
+}
+
 // VerifC19Twin (vacuity twin): same files and queries, but the oracle lets the FIRST definition
 // of a user win; it must be violated.
 func VerifC19Twin() {
-	maxN, maxPerms, withNull := verifBounds()
-	f := verifBuildFile(maxN, maxPerms, withNull)
-	u, pw, perm := verifStr("queryUser"), verifStr("queryPassword"), verifStr("queryPerm")
+	f := verifBuildFile(verifBounds{maxEntries: 2, maxPerms: 1})
+	u, pw, perm := verifQuery()
 	c, err := verifLoadFile(f)
 	verifAssert("C19-load-accepts-well-formed-file", err == nil)
 	got := c.AA(u, pw, perm)
@@ -560,5 +781,5 @@ func VerifC19Twin() {
 	for i := len(f.entries) - 1; i >= 0; i-- {
 		r.entries = append(r.entries, f.entries[i])
 	}
-	verifAssert("twin", got == r.specAA(u, pw, perm))
+	verifAssert("twin", got == ruleAA(r, u, pw, perm))
 }
